@@ -176,6 +176,26 @@ CLAIMS["C36"] = {
     "design": "DESIGN.md §5 C36, §14",
 }
 
+CLAIMS["C17"] = {
+    "text": "Partial (the union-find clause only): dfir_lang::union_find::UnionFind::{find, union, same_set, with_capacity} -- real bodies spliced "
+            "token-for-token -- are verified by Verus for every key type and every state satisfying the representation invariant (links form a "
+            "forest inside the map), unbounded, INCLUDING termination of the recursive, path-compressing find (measure: chain length; the "
+            "temporary `insert(k, k)` cut is handled by a frame lemma). Contracts over the partition x -> representative (absent keys are "
+            "singletons): with_capacity starts discrete; find returns the representative and leaves the partition unchanged; union(a, b) returns "
+            "a's old representative and joins exactly the classes of a and b, every other class unchanged; same_set(a, b) answers whether a and b "
+            "have the same representative and leaves the partition unchanged. By lemma_union_is_closure_step, after any history of calls "
+            "same_set answers the equivalence closure of the unioned pairs.",
+    "note": "NOT covered -- and the larger part of the property: topo_sort, validate_topo_sort, SubgraphMerge::{new, try_merge, subgraphs} (internal std "
+            "HashMap/HashSet/BTreeMap/BTreeSet, recursive inner fn, FnMut closures returning generic IntoIterators: outside Verus' subset; CBMC did not "
+            "finish a 2-node topo_sort in 7 min). A change in those functions is NOT detected by this check. UnionFind::new uses the derived "
+            "Default and is not spliced. Trusted: stand-in declarations of slotmap::Key and slotmap::SecondaryMap with a finite-map contract "
+            "(insert returns the old value, Index/IndexMut need a present key) -- valid when all keys come from one SlotMap and none was removed "
+            "(SecondaryMap silently ignores stale keys); `==` on keys is structural. No Kani twin exists (CBMC cannot get through SecondaryMap), "
+            "so a violation is reported without a failing input.",
+    "technique": "contract-based deductive verification: Verus on the real bodies (representation invariant, partition view, recursive lemmas, decreases)",
+    "design": "DESIGN.md §14.3",
+}
+
 CLAIMS["C05"] = {
     "text": "Partial, bounded: the tombstone merge / comparison ALGORITHMS (SetUnionWithTombstones::{merge, partial_cmp, eq, is_bot}, "
             "MapUnionWithTombstones::merge) run under Kani on the real crate with harness array-backed sets/maps standing for any Set / "
